@@ -481,7 +481,12 @@ theorem getC_frame {rec : Rec} (hrec : FrameRec rec) {c : Nat} {s s' : St} {r : 
             exact f1.trans (Frame.of_eq c2 d2 p2)
           | ok u =>
             simp only at h
-            exact key s2 (Frame.of_eq c2 d2 p2) h
+            -- G15: the record grows by what `c` depends on
+            refine key { s2 with proc := sourcesOf s2 (c + 1) c ++ s2.proc }
+              ⟨c2, d2, fun _ k hk => ?_, fun _ hcn _ => ?_⟩ h
+            · show k ∈ sourcesOf s2 (c + 1) c ++ s2.proc
+              rw [p2]; exact List.mem_append_right _ hk
+            · rw [hcur1] at hcn; cases hcn
 
 /-- **every call respects the evaluation context**, whatever the state and however deep the recursion -/
 theorem exec_frame : ∀ f, FrameRec (exec f) := by
@@ -580,6 +585,125 @@ theorem TSteps.frame {rec : Rec} (hrec : FrameRec rec) {t t' : Tree} {s s' : St}
   induction h with
   | refl => exact Frame.refl _
   | head h _ ih => exact (h.frame hrec).trans ih
+
+/-! ### dependencies through Computables (finding G15) -/
+
+/-- Computed `c` depends on the Observable `k`: it remembers `k` itself, or a Computable that depends on `k` -/
+inductive DependsOn (s : St) : Nat → Key → Prop
+  | obs {c : Nat} {x : Comp} {k : Key} {v : V} (hx : s.comps c = some x) (hm : (PRef.obs k, v) ∈ x.parents) :
+      DependsOn s c k
+  | comp {c c' : Nat} {x : Comp} {k : Key} {v : V} (hx : s.comps c = some x) (hm : (PRef.comp c', v) ∈ x.parents)
+      (h : DependsOn s c' k) : DependsOn s c k
+
+/-- a Computed remembers only Computables defined before it -/
+def RankedParents (s : St) : Prop :=
+  ∀ c x, s.comps c = some x → ∀ c' v, (PRef.comp c', v) ∈ x.parents → c' < c
+
+theorem sourcesOf_congr {s s' : St} (h : s'.comps = s.comps) : ∀ f c, sourcesOf s' f c = sourcesOf s f c := by
+  intro f
+  induction f with
+  | zero => intro c; rfl
+  | succ f ih =>
+    intro c
+    simp only [sourcesOf, h]
+    cases s.comps c with
+    | none => rfl
+    | some x =>
+      simp only
+      congr 1
+      funext e
+      cases e.1 with
+      | obs k => rfl
+      | comp c' => exact ih c'
+
+/-- the walk of `Computed._sources` finds every dependency (with parents ranked, `c + 1` levels suffice) -/
+theorem sourcesOf_of_dependsOn {s : St} (hr : RankedParents s) {c : Nat} {k : Key} (h : DependsOn s c k) :
+    ∀ f, c < f → k ∈ sourcesOf s f c := by
+  induction h with
+  | obs hx hm =>
+    intro f hf
+    cases f with
+    | zero => omega
+    | succ f =>
+      simp only [sourcesOf, hx, List.mem_flatMap]
+      exact ⟨_, hm, by simp⟩
+  | comp hx hm _ ih =>
+    intro f hf
+    cases f with
+    | zero => omega
+    | succ f =>
+      simp only [sourcesOf, hx, List.mem_flatMap]
+      exact ⟨_, hm, ih f (by have := hr _ _ hx _ _ hm; omega)⟩
+
+/-- … and nothing else -/
+theorem dependsOn_of_sourcesOf {s : St} : ∀ (f c : Nat) (k : Key), k ∈ sourcesOf s f c → DependsOn s c k := by
+  intro f
+  induction f with
+  | zero => intro c k h; simp [sourcesOf] at h
+  | succ f ih =>
+    intro c k h
+    simp only [sourcesOf] at h
+    cases hx : s.comps c with
+    | none => simp [hx] at h
+    | some x =>
+      simp only [hx, List.mem_flatMap] at h
+      obtain ⟨⟨r, v⟩, hm, hk⟩ := h
+      cases r with
+      | obs k' =>
+        simp only [List.mem_singleton] at hk
+        subst hk
+        exact .obs hx hm
+      | comp c' => exact .comp hx hm (ih c' k hk)
+
+/-- G15 repaired: a read of Computable `c` inside an evaluation that hands out the value `c` held before — served
+    from the cache, re-validated, or recomputed to the same value — leaves everything `c` depends on on record -/
+theorem getC_records {rec : Rec} (hrec : FrameRec rec) {c p : Nat} {x : Comp} {s s' : St} {a : V}
+    (hcur : s.cur = some p) (hx : s.comps c = some x) (h : getC rec c s = some (s', .ok a))
+    (hsame : a = x.value.join) : ∀ k, k ∈ sourcesOf s' (c + 1) c → k ∈ s'.proc := by
+  unfold getC at h
+  rw [hx] at h
+  simp only at h
+  cases hc : callC rec c x s with
+  | none => simp [hc] at h
+  | some res =>
+    obtain ⟨s1, r1⟩ := res
+    rw [hc] at h
+    have f1 := callC_frame hrec hc
+    cases r1 with
+    | err e => simp only at h; injection h with h; injection h with _ h2; cases h2
+    | ok new =>
+      simp only at h
+      have hcur1 : s1.cur = some p := f1.cur.trans hcur
+      rw [hcur1] at h
+      simp only at h
+      cases ha : addParent s1 p (.comp c) new with | mk s2 r2 =>
+      rw [ha] at h
+      cases r2 with
+      | err e => simp only at h; injection h with h; injection h with _ h2; cases h2
+      | ok u =>
+        simp only at h
+        by_cases hn : new ≠ x.value.join
+        · rw [if_pos hn] at h
+          exfalso
+          cases hg : rec (.notify (x.owner, x.name) x.value.join new)
+              { s2 with proc := sourcesOf s2 (c + 1) c ++ s2.proc } with
+          | none => simp [hg] at h
+          | some res3 =>
+            obtain ⟨s3, r3⟩ := res3
+            rw [hg] at h
+            cases r3 with
+            | err e => simp only at h; injection h with h; injection h with _ h2; cases h2
+            | ok u3 =>
+              simp only at h
+              injection h with h; injection h with _ h2
+              injection h2 with h2
+              exact hn (h2.trans hsame)
+        · rw [if_neg hn] at h
+          injection h with h; injection h with h1 _; subst h1
+          intro k hk
+          have he := sourcesOf_congr (s := s2) (s' := { s2 with proc := sourcesOf s2 (c + 1) c ++ s2.proc }) rfl (c + 1) c
+          rw [he] at hk
+          exact List.mem_append_left _ hk
 
 /-- the assignment to a key on record raises -/
 theorem write_inside {p : Nat} {k : Key} {s : St} (i : Inside p k s) (f : Nat) (v : V) (next : Tree) :
